@@ -375,7 +375,7 @@ def gen_boundary(rng):
     perturbation that exists there (a 0-row frame has no cell: names, case, swaps, stype set, dict keys, target presence,
     0 rows vs 1 row); partitions into n parts of one row; the same object repeated in a cat list; row-less / column-less
     parts that carry the target"""
-    sub = rng.wpick([(6, "zero-rows"), (4, "one-row"), (2, "rows-0-vs-1"), (2, "n-parts-of-1"), (2, "repeat-object"),
+    sub = rng.wpick([(9, "zero-rows"), (4, "one-row"), (2, "rows-0-vs-1"), (2, "n-parts-of-1"), (2, "repeat-object"),
                      (2, "target-on-empty-part")])
     if sub in ("zero-rows", "one-row", "rows-0-vs-1"):
         fr = F.gen_frame(rng, n=1, featureless_p=0.1, min_feats=1, max_feats=4)
@@ -385,7 +385,10 @@ def gen_boundary(rng):
         if sub == "rows-0-vs-1":
             return {"kind": "boundary", "sub": sub, "a": {"op": "sel", "of": B(fr), "idx": z}, "b": B(copy.deepcopy(fr)),
                     "lookups": [], "meta": {}}
-        psub, g = perturb(rng, fr, only=ZERO_ROW_PERTS if sub == "zero-rows" else None)
+        want = rng.wpick([(5, ["name"]), (2, ["name-swap", "name"]), (3, ["name-case"]), (2, ["dict-key", "name"]),
+                          (2, ["drop-feat", "name"]), (5, ["y-none", "y-added"]), (2, ["same:copy", "same:feat-order",
+                          "same:dict-order", "same:num-rows"]), (1, ["cell", "nan"])])
+        psub, g = perturb(rng, fr, only=want if sub == "zero-rows" or rng.chance(0.6) else None)
         a, b = B(fr), B(g)
         if sub == "zero-rows":
             a, b = {"op": "sel", "of": a, "idx": z}, {"op": "sel", "of": b, "idx": rng.pick([z, {"t": "list", "l": []}])}
@@ -793,7 +796,7 @@ def gen_reuse(rng):
 
 
 GENS = [(24, gen_rowpart), (18, gen_colpart), (26, gen_perturb), (6, gen_lookup), (10, gen_malformed), (8, gen_reuse),
-        (10, gen_indep), (12, gen_boundary)]
+        (10, gen_indep), (16, gen_boundary)]
 
 
 def exhaustive(rng):
